@@ -338,6 +338,12 @@ def run_case(case, acc):
             acc.exclude("input-without-format-4-or-12-unicode-cmap")
             return
     charsets = [set(h.unicodes()) for h in hbs]
+    for h, cs in zip(hbs, charsets):
+        n = h.glyph_count()
+        if any((h.nominal(cp) or 0) >= n for cp in cs):
+            # an input whose character map points beyond its own glyph count (AOTS cmap4_font4.otf: 900 of 1001 entries)
+            acc.exclude("input-cmap-points-beyond-its-glyph-count(malformed)")
+            return
     all_have_gsub = all("GSUB" in f for f in fonts)
     # documented restriction: duplicate glyph disambiguation needs GSUB in the fonts
     dup = any(charsets[i] & charsets[j] for i in range(len(inputs)) for j in range(i))
